@@ -218,8 +218,16 @@ class Interp:
                     if nm == 'std::prev':
                         d = -d
                     p = v[1]
+                    if p == 'E' and self.sc.ke < W:
+                        p = self.sc.ke                     # the end is inside the known window: an exact offset
+                    elif p == 'B' and self.sc.kb < W:
+                        p = -self.sc.kb
                     if isinstance(p, int):
-                        out.append((('it', p + d), cx2))
+                        q = p + d
+                        if q == self.sc.ke and self.sc.ke < W:
+                            out.append((('it', 'E'), cx2))
+                        else:
+                            out.append((('it', q), cx2))
                     else:
                         raise Unknown('iterator arithmetic on %s' % (p,))
                 return out
@@ -229,8 +237,21 @@ class Interp:
                 (lo, cx1), = self.ev(n['args'][0], cx)
                 (hi, cx2), = self.ev(n['args'][1], cx1)
                 if lo != ('it', 'B'):
-                    raise Unknown('binary search that does not start at begin()')
-                p = self.sc.lower_bound()
+                    if not isinstance(lo[1], int):
+                        raise Unknown('binary search that does not start at begin() or at a known position')
+                    # first element at or after `lo` that is not ordered before the value
+                    sc = self.sc
+                    p = None
+                    for k_ in range(max(lo[1], -sc.kb), sc.ke):
+                        if sc.rels[k_] in ('lt', 'eq'):
+                            p = k_
+                            break
+                    if p is None:
+                        p = 'R' if sc.ke == W else 'E'
+                    if lo[1] >= sc.ke and sc.ke < W:
+                        p = 'E'
+                else:
+                    p = self.sc.lower_bound()
                 hi_p = hi[1]
                 res = self.clamp(p, hi_p)
                 return [(('it', res), cx2.but(searched=True, notes=cx2.notes + (('search', hi_p),)))]
@@ -543,7 +564,7 @@ def hint_ord(progs):
                     msg = 'HINT-ORD: the interpreter does not understand %s any more (%s, scenario %s)' % (fname, e, sc.name())
                     rr12.broken = rr12.broken or msg
                     rr19.broken = rr19.broken or msg
-                    break
+                    continue                               # the other scenarios are still judged: a finding there takes precedence
                 for kind, act, cx in outs:
                     npaths += 1
                     if kind != 'ret':
